@@ -282,21 +282,13 @@ def bothTraces (rows : List CoreSheet.CRow) (env : Nat → Nat) (n : Nat) : Opti
   | .ok out, .ok r => some (trace ⟨false, true⟩ (Compile.renderOut out) env n, trace ⟨false, true⟩ r env n)
   | _, _ => none
 
-/-- non-vacuity: the sheet is in the fragment, the compiler model compiles it (26 nodes: two of
-the action rows have a router node behind their node), the reference interpretation exists (24 nodes) — and, as the theorem says, the traces agree (checked
-here for four answer streams, the third one passing the three rows with fixed outcomes and the
-`split_random` row, the fourth one the two action rows that are left conditionally) -/
+/-- non-vacuity: the sheet is in the fragment, the compiler model compiles it (26 nodes: two of the
+action rows have a router node behind their node), the reference interpretation exists (24 nodes) -/
 example : CoreSheet.inFragment exRows = true ∧
     (∃ out, Compile.compile RefFlow.noArgsTests exTests (exRows.map CoreSheet.toEvent) = .ok out ∧
       out.nodes.length = 26) ∧
-    (∃ r, RefFlow.refFlow (exRows.map CoreSheet.toRRow) = .ok r ∧ r.nodes.length = 24) ∧
-    (bothTraces exRows (fun k => k) 8).map (fun p => decide (p.1 = p.2)) = some true ∧
-    (bothTraces exRows (fun k => 2 * k + 1) 8).map (fun p => decide (p.1 = p.2)) = some true ∧
-    (bothTraces exRows (fun k => if k = 0 then 3 else if k = 2 then 1 else 0) 15).map
-      (fun p => decide (p.1 = p.2 ∧ p.1.length = 15)) = some true ∧
-    (bothTraces exRows (fun _ => 0) 24).map
-      (fun p => decide (p.1 = p.2 ∧ Obs.act "QA".toList ∈ p.1 ∧ Obs.act "UA".toList ∈ p.1)) = some true := by
-  refine ⟨by decide +kernel, ?_, ?_, by decide +kernel, by decide +kernel, by decide +kernel, by decide +kernel⟩
+    (∃ r, RefFlow.refFlow (exRows.map CoreSheet.toRRow) = .ok r ∧ r.nodes.length = 24) := by
+  refine ⟨by decide +kernel, ?_, ?_⟩
   · have h : (match Compile.compile RefFlow.noArgsTests exTests (exRows.map CoreSheet.toEvent) with
         | .ok out => decide (out.nodes.length = 26) | .error _ => false) = true := by decide +kernel
     split at h
@@ -307,6 +299,18 @@ example : CoreSheet.inFragment exRows = true ∧
     split at h
     · rename_i r hr; exact ⟨r, hr, by simpa using h⟩
     · cases h
+
+/-- … and, as the theorem says, the traces agree: checked here for four answer streams, the third one
+passing the three rows with fixed outcomes and the `split_random` row, the fourth one the two action
+rows that are left conditionally -/
+example :
+    (bothTraces exRows (fun k => k) 8).map (fun p => decide (p.1 = p.2)) = some true ∧
+    (bothTraces exRows (fun k => 2 * k + 1) 8).map (fun p => decide (p.1 = p.2)) = some true ∧
+    (bothTraces exRows (fun k => if k = 0 then 3 else if k = 2 then 1 else 0) 15).map
+      (fun p => decide (p.1 = p.2 ∧ p.1.length = 15)) = some true ∧
+    (bothTraces exRows (fun _ => 0) 24).map
+      (fun p => decide (p.1 = p.2 ∧ Obs.act "QA".toList ∈ p.1 ∧ Obs.act "UA".toList ∈ p.1)) = some true :=
+  ⟨by decide +kernel, by decide +kernel, by decide +kernel, by decide +kernel⟩
 
 /-- outside the fragment, with both readings defined and the traces DIFFERENT -/
 def refuted (rows : List CoreSheet.CRow) (n : Nat) : Bool :=
